@@ -115,6 +115,16 @@ func simgen(verifDir, repo string, env []string) (*genResult, error) {
 			if err != nil {
 				return nil, err
 			}
+			if rel != "store" {
+				// pass 1: every channel operation and every goroutine started from a function
+				// literal becomes a scheduling point (line numbers are preserved)
+				ysrc, yrep, yerr := insertYields(path, src)
+				if yerr != nil {
+					return nil, fmt.Errorf("%s: %v", path, yerr)
+				}
+				src = ysrc
+				res.Selects = append(res.Selects, yrep...)
+			}
 			out, rep, used, err := transformFile(path, src, red, rel != "sasl" && rel != "store")
 			if err != nil {
 				return nil, fmt.Errorf("%s: %v", path, err)
@@ -301,6 +311,9 @@ func transformFile(path string, src []byte, red map[string]string, doSelects boo
 			report = append(report, fmt.Sprintf("%s:%d select rewritten (%d comm clauses)", base, line, len(ss.Body.List)))
 			return false // nested selects inside a rewritten one are not handled separately
 		})
+	}
+	if bytes.Contains(src, []byte("__simrt.")) {
+		needSimrt = true
 	}
 	if needSimrt {
 		// add the simrt import right after the package clause's line
@@ -498,4 +511,141 @@ func rewriteSelect(fset *token.FileSet, tf *token.File, src []byte, ss *ast.Sele
 	endLine := fset.Position(ss.End()).Line
 	fmt.Fprintf(&b, "} }\n//line %s:%d\n", path, endLine)
 	return b.String(), ""
+}
+
+// containsChanOp reports whether the expression tree (not descending into function
+// literals) contains a channel receive.
+func containsRecv(n ast.Node) bool {
+	found := false
+	ast.Inspect(n, func(x ast.Node) bool {
+		if found {
+			return false
+		}
+		switch e := x.(type) {
+		case *ast.FuncLit:
+			return false
+		case *ast.UnaryExpr:
+			if e.Op == token.ARROW {
+				found = true
+			}
+		}
+		return true
+	})
+	return found
+}
+
+// insertYields is pass 1 of the transformation. It inserts, on the same source line,
+//   - `__simrt.Yield("file:line"); ` before every statement that performs a channel send or
+//     receive outside a select (a goroutine known to the scheduler parks there until released);
+//   - for `go func(params){ body }(args)`: an extra parameter carrying an id drawn in the
+//     parent (`__simrt.NextGoID`) and `__simrt.YieldStart(site, id)` as first statement of the
+//     body, so that the start of the new goroutine is a scheduling decision as well.
+// `go f(x)` with a plain call is left alone (its arguments are evaluated eagerly anyway).
+func insertYields(path string, src []byte) ([]byte, []string, error) {
+	fset := token.NewFileSet()
+	f, err := parser.ParseFile(fset, path, src, parser.ParseComments)
+	if err != nil {
+		return nil, nil, err
+	}
+	tf := fset.File(f.Pos())
+	off := func(p token.Pos) int { return tf.Offset(p) }
+	base := filepath.Base(path)
+	var edits []edit
+	nyield, ngo := 0, 0
+	commStmts := map[ast.Stmt]bool{}
+	ast.Inspect(f, func(n ast.Node) bool {
+		if cc, ok := n.(*ast.CommClause); ok && cc.Comm != nil {
+			commStmts[cc.Comm] = true
+		}
+		return true
+	})
+	addYield := func(st ast.Stmt) {
+		site := fmt.Sprintf("%s:%d", base, fset.Position(st.Pos()).Line)
+		edits = append(edits, edit{off(st.Pos()), off(st.Pos()), fmt.Sprintf("__simrt.Yield(%q); ", site)})
+		nyield++
+	}
+	ast.Inspect(f, func(n ast.Node) bool {
+		switch st := n.(type) {
+		case *ast.GoStmt:
+			fl, ok := st.Call.Fun.(*ast.FuncLit)
+			if !ok {
+				return true
+			}
+			params := fl.Type.Params
+			if n := len(params.List); n > 0 {
+				if _, variadic := params.List[n-1].Type.(*ast.Ellipsis); variadic {
+					return true
+				}
+			}
+			site := fmt.Sprintf("%s:%d", base, fset.Position(st.Pos()).Line)
+			sep := ""
+			if len(params.List) > 0 {
+				sep = ", "
+			}
+			edits = append(edits, edit{off(params.Closing), off(params.Closing), sep + "__gid int"})
+			edits = append(edits, edit{off(fl.Body.Lbrace) + 1, off(fl.Body.Lbrace) + 1, fmt.Sprintf(" __simrt.YieldStart(%q, __gid); ", site)})
+			sep = ""
+			if len(st.Call.Args) > 0 {
+				sep = ", "
+			}
+			edits = append(edits, edit{off(st.Call.Rparen), off(st.Call.Rparen), sep + fmt.Sprintf("__simrt.NextGoID(%q)", site)})
+			ngo++
+		}
+		return true
+	})
+	// statements with channel operations
+	ast.Inspect(f, func(n ast.Node) bool {
+		var list []ast.Stmt
+		switch b := n.(type) {
+		case *ast.BlockStmt:
+			list = b.List
+		case *ast.CaseClause:
+			list = b.Body
+		case *ast.CommClause:
+			list = b.Body
+		default:
+			return true
+		}
+		for _, st := range list {
+			if commStmts[st] {
+				continue
+			}
+			switch s := st.(type) {
+			case *ast.SendStmt:
+				addYield(s)
+			case *ast.ExprStmt:
+				if containsRecv(s.X) {
+					addYield(s)
+				}
+			case *ast.AssignStmt:
+				for _, r := range s.Rhs {
+					if containsRecv(r) {
+						addYield(s)
+						break
+					}
+				}
+			case *ast.ReturnStmt:
+				for _, r := range s.Results {
+					if containsRecv(r) {
+						addYield(s)
+						break
+					}
+				}
+			}
+		}
+		return true
+	})
+	if len(edits) == 0 {
+		return src, nil, nil
+	}
+	sort.SliceStable(edits, func(i, j int) bool { return edits[i].start < edits[j].start })
+	var out bytes.Buffer
+	pos := 0
+	for _, e := range edits {
+		out.Write(src[pos:e.start])
+		out.WriteString(e.text)
+		pos = e.start
+	}
+	out.Write(src[pos:])
+	return out.Bytes(), []string{fmt.Sprintf("%s: %d channel-operation yields, %d goroutine-start yields inserted", base, nyield, ngo)}, nil
 }
